@@ -202,7 +202,10 @@ class CylGrid:
             ip = np.zeros(m, dtype=int)
             ap = np.full(m, -1, dtype=int)
         inside = (r <= self.r_out - delta) & (r >= self.r_in + delta) & (z >= delta) & (z <= self.z_top - delta)
-        maybe = (r <= self.r_out + delta) & (r >= self.r_in - delta) & (z >= -delta) & (z <= self.z_top + delta)
+        # radius_inner = 0: the 1e-5 dr hole raytransfer.py leaves on the axis is not needed to keep indices in range;
+        # a ray may or may not be integrated through it (both accepted)
+        r_low = self.r_in - delta if self.ri > 0.0 else -1.0
+        maybe = (r <= self.r_out + delta) & (r >= r_low) & (z >= -delta) & (z <= self.z_top + delta)
         status = np.where(inside, 2, np.where(maybe, 1, 0))
         irc = np.clip(ir, 0, self.nr - 1)
         izc = np.clip(iz, 0, self.nz - 1)
@@ -245,6 +248,17 @@ def dt_of(L, step, ms):
     if L < 0.1 * step:
         return 0.0
     return L / max(ms, int(L / step))
+
+
+def dt_sup(Lmin, Lmax, step, ms):
+    """Supremum of dt_of(L) over Lmin <= L <= Lmax."""
+    if Lmax < 0.1 * step:
+        return 0.0
+    n_lo = max(ms, int(max(Lmin, 0.0) / step))
+    n_hi = max(ms, int(Lmax / step))
+    if n_lo == n_hi:
+        return Lmax / n_hi
+    return step * (n_lo + 1.0) / n_lo          # just below the length at which one more sample is taken
 
 
 class RayAnalysis:
@@ -298,43 +312,55 @@ def analyse(grid, o, d, step, ms, delta):
     seg_start = keep & ~prev
     seg_id = np.cumsum(seg_start) - 1
     nseg = int(seg_start.sum())
-    droppable = np.zeros(nseg, dtype=bool)
+    drop_piece = np.zeros(len(ln), dtype=bool)          # pieces whose contribution may legitimately be missing
     dts = []
+    short_len = 0.1 * step * (1 + 1e-6) + 1e-12
     for s in range(nseg):
-        sel = keep & (seg_id == s)
-        idx = np.flatnonzero(sel)
-        L_all = float(ln[sel].sum())
+        idx = np.flatnonzero(keep & (seg_id == s))
+        L_all = float(ln[idx].sum())
         surely = status[idx] == 2
         L_in = float(ln[idx][surely].sum())
         first_amb = bool(idx[0] == 0 and status[0] == 1)     # origin within delta of the primitive surface
         if first_amb:
             A.origin_ambiguous = True
-        # maximal surely-inside sub-runs
-        sub = []
-        cur = 0.0
+            drop_piece[idx] = True
+        # maximal surely-inside sub-runs with the ambiguous lengths adjacent to them: raysect may end the segment
+        # anywhere inside an ambiguous piece, so the real segment(s) are [sub, sub + adjacent] long or the whole run
+        subs = []                       # (pieces, length, ambiguous length before, after)
+        cur, cur_len, amb_before, amb_run = [], 0.0, 0.0, 0.0
         for k, su in zip(idx, surely):
             if su:
-                cur += ln[k]
-            elif cur > 0:
-                sub.append(cur)
-                cur = 0.0
-        if cur > 0:
-            sub.append(cur)
-        short = L_in < 0.1 * step * (1 + 1e-6) + 1e-12
-        droppable[s] = short or first_amb
-        if L_all >= 0.1 * step and short:
+                if not cur:
+                    amb_before = amb_run
+                cur.append(k)
+                cur_len += ln[k]
+                amb_run = 0.0
+            else:
+                if cur:
+                    subs.append([cur, cur_len, amb_before, 0.0])
+                    cur, cur_len = [], 0.0
+                    amb_run = 0.0
+                amb_run += ln[k]
+                if subs and subs[-1][3] == 0.0 and not cur:
+                    subs[-1][3] = amb_run
+        if cur:
+            subs.append([cur, cur_len, amb_before, 0.0])
+        any_short = False
+        cand = [dt_sup(L_in, L_all, step, ms)]
+        for pieces, length, a0, a1 in subs:
+            if length < short_len:
+                drop_piece[pieces] = True               # a segment shorter than 0.1 step is skipped by the integrators
+                any_short = True
+            cand.append(dt_sup(length, length + a0 + a1, step, ms))
+        if any_short and L_all >= 0.1 * step:
             A.dropped_short += 1
-        cand = [dt_of(L_all, step, ms)] + [dt_of(x, step, ms) for x in sub]
-        if L_all - L_in > 1e-6 * L_all and L_all >= 0.1 * step:
-            # wide ambiguity band (grazing geometry): use the supremum of dt over all lengths <= L_all
-            cand.append(min(step * (1.0 + 1.0 / ms), L_all / ms))
         dts.append(max(cand))
         A.segments.append(dict(t0=float(t[idx[0]]), t1=float(t[idx[-1] + 1]), L_lo=L_in, L_hi=L_all,
-                               droppable=bool(droppable[s])))
+                               sub_runs=[float(x[1]) for x in subs], origin_ambiguous=first_amb))
     A.dt = max(dts) * (1 + 1e-6) if dts else 0.0
     # ---- lo --------------------------------------------------------------------------------------------------
     np.add.at(A.lo_geom, flat_main[unamb], ln[unamb])
-    sel = unamb & ~droppable[np.clip(seg_id, 0, None)]
+    sel = unamb & ~drop_piece
     np.add.at(A.lo, flat_main[sel], ln[sel])
     # ---- hi: every candidate cell of every possibly-inside piece ----------------------------------------------
     normal = keep & ~phi_all
